@@ -411,8 +411,8 @@ Theorem capture_stored_is_prefix : forall (H : bytes -> N) (pmax amax : N) (chun
   let out := concat chunks in
   cp_bytes_total c = nlen out
   /\ cp_truncated c = (pmax <? nlen out)
-  /\ cp_bytes_preview c = N.min pmax (nlen out)
-  /\ cp_lines c = lines (lossy (take pmax out))
+  /\ (let pv := shell_preview (take pmax out) (pmax <? nlen out) in
+      cp_bytes_preview c = nlen pv /\ cp_lines c = lines (lossy pv) /\ nlen pv <= pmax)
   /\ match cp_artifact c with
      | Some a => pmax < nlen out /\ amax <> 0
                  /\ cp_blob c = take amax out /\ a_id a = H (take amax out)
@@ -426,12 +426,18 @@ Proof.
   set (s := fold_left (cs_step pmax amax) chunks cs0) in *.
   destruct Hinv as (Ht & Hp & Hnp & Hnf & Hfl & Hfile).
   unfold cs_finish.
-  assert (Htr : truncate_utf8 (cs_prev s) pmax = (lossy (cs_prev s), false, nlen (cs_prev s))).
-  { unfold truncate_utf8. rewrite Hp, nlen_take.
-    destruct (N.leb_spec (N.min pmax (nlen out)) pmax) as [_|Hc]; [reflexivity|lia]. }
+  set (pv := shell_preview (cs_prev s) (pmax <? cs_total s)).
+  assert (Hpv : nlen pv <= pmax).
+  { subst pv. unfold shell_preview. destruct (pmax <? cs_total s).
+    - rewrite nlen_take, Hp, nlen_take. lia.
+    - rewrite Hp, nlen_take. lia. }
+  assert (Htr : truncate_utf8 pv pmax = (lossy pv, false, nlen pv)).
+  { unfold truncate_utf8.
+    destruct (N.leb_spec (nlen pv) pmax) as [_|Hc]; [reflexivity|lia]. }
   rewrite Htr. cbn [cp_bytes_total cp_truncated cp_bytes_preview cp_lines cp_artifact cp_blob].
-  rewrite Ht, Hp, nlen_take.
-  split; [reflexivity|]. split; [reflexivity|]. split; [reflexivity|]. split; [reflexivity|].
+  subst pv. rewrite Ht, Hp in *.
+  split; [reflexivity|]. split; [reflexivity|].
+  split; [split; [reflexivity|split; [reflexivity|exact Hpv]]|].
   destruct (N.ltb_spec pmax (nlen out)) as [Hlt|Hge]; cbn [negb].
   - destruct (cs_file s) as [f|] eqn:Ef.
     + destruct Hfile as (Ha & Hf & Hn). cbn [a_id a_bytes a_trunc]. subst f.
@@ -443,3 +449,70 @@ Proof.
       destruct (Hnf Hff) as [Hle _]. lia.
   - left. exact Hge.
 Qed.
+
+(* ================= pump_output_stream ================= *)
+Lemma pump_fold plimit chunks : forall w fs,
+  fold_left (pump_step plimit) chunks (w, fs)
+  = (fst (lw_run w chunks),
+     fs ++ map (fun ci => {| df_preview := fst (fst (truncate_utf8 (fst ci) (N.min plimit OUTPUT_EVENT_MAX_BYTES)));
+                             df_info := snd ci |})
+               (combine chunks (snd (lw_run w chunks)))).
+Proof.
+  induction chunks as [|c r IH]; intros w fs; cbn [fold_left lw_run fst snd combine map].
+  - rewrite app_nil_r. reflexivity.
+  - unfold pump_step at 2. cbn [fst snd].
+    destruct (lw_append w c) as [w1 i] eqn:E1.
+    destruct (truncate_utf8 c (N.min plimit OUTPUT_EVENT_MAX_BYTES)) as [[pv tr] used] eqn:E2.
+    rewrite IH. destruct (lw_run w1 r) as [w2 is2] eqn:E3. cbn [fst snd combine map].
+    rewrite E2. cbn [fst]. rewrite <- app_assoc. reflexivity.
+Qed.
+
+(* the pump stores what the log writer stores, and its frames carry exactly the append ranges, one per
+   chunk, in order: so the ranges named by the output frames tile the stored log *)
+Theorem pump_frames_tile : forall (cap plimit : N) (chunks : list bytes),
+  let '(w, fs) := pump cap plimit chunks in
+  w = fst (lw_run (lw_new cap) chunks)
+  /\ map df_info fs = snd (lw_run (lw_new cap) chunks)
+  /\ consecutive 0 (map range_of (map df_info fs))
+  /\ tiles 0 (map range_of (map df_info fs)) = nlen (lw_file w)
+  /\ ranges_hold (lw_file w) (map df_info fs) chunks
+  /\ Forall2 (fun f c => df_preview f = fst (fst (truncate_utf8 c (N.min plimit OUTPUT_EVENT_MAX_BYTES)))) fs chunks.
+Proof.
+  intros cap plimit chunks. unfold pump. rewrite pump_fold. cbn [app].
+  pose proof (log_ranges_tile cap chunks) as HT.
+  pose proof (lw_run_consecutive chunks (lw_new cap)) as HC.
+  destruct (lw_run (lw_new cap) chunks) as [w is_] eqn:E. cbn [fst snd].
+  destruct HC as (_ & _ & Hlen & _).
+  assert (Hmap : map df_info
+     (map (fun ci => {| df_preview := fst (fst (truncate_utf8 (fst ci) (N.min plimit OUTPUT_EVENT_MAX_BYTES)));
+                        df_info := snd ci |}) (combine chunks is_)) = is_).
+  { rewrite map_map. cbn [df_info]. clear -Hlen. revert is_ Hlen.
+    induction chunks as [|c r IH]; intros [|i is_] Hl; cbn [combine map length] in *; try discriminate; try reflexivity.
+    f_equal. apply IH. lia. }
+  rewrite Hmap. destruct HT as (H1 & H2 & H3).
+  repeat (split; [assumption || reflexivity|]).
+  clear -Hlen. revert is_ Hlen.
+  induction chunks as [|c r IH]; intros [|i is_] Hl; cbn [combine map length] in *; try discriminate; constructor.
+  - reflexivity.
+  - apply IH. lia.
+Qed.
+
+(* S17, the code before the repair: with preview limit 0 no frame references the stored bytes *)
+Definition s17_chunks : list bytes := [[104; 101]; [108; 108; 111]].
+Lemma pump_unfixed_ranges_refuted :
+  exists cap plimit chunks,
+    let '(w, fs) := pump_unfixed cap plimit chunks in
+    tiles 0 (map range_of (map df_info fs)) <> nlen (lw_file w).
+Proof. exists 100, 0, s17_chunks. vm_compute. discriminate. Qed.
+
+(* S12, the code before the repair: "aééé" read in pages of 4 bytes *)
+Definition s12_file : bytes := [97; 195; 169; 195; 169; 195; 169].
+Lemma pages_unfixed_refuted :
+  exists file maxb fuel,
+    utf8_ok file = true /\ 4 <= maxb
+    /\ concat (map pg_content (page_walk read_range_unfixed fuel file 0 maxb)) <> file.
+Proof. exists s12_file, 4, 20%nat. vm_compute. repeat split; discriminate. Qed.
+
+Example pages_fixed_s12 :
+  concat (map pg_content (page_walk read_range 20 s12_file 0 4)) = s12_file.
+Proof. vm_compute. reflexivity. Qed.
